@@ -780,7 +780,26 @@ func ruleProcPhases(c *Ctx) []Obligation {
 	con = "implicit cases are inserted on every path to the final return"
 	okk = len(fixes) > 0
 	for _, f := range fixes {
+		// the outermost loop the call sits in (the pass may be a loop over a literal list of tables around the
+		// loop over each table)
 		h := loopHeaderOf(f.Block())
+		for h != nil {
+			var outerH *ssa.BasicBlock
+			for d := h.Idom(); d != nil; d = d.Idom() {
+				for _, p := range d.Preds {
+					if d.Dominates(p) && blockReaches(h, p, nil) {
+						outerH = d
+					}
+				}
+				if outerH != nil {
+					break
+				}
+			}
+			if outerH == nil {
+				break
+			}
+			h = outerH
+		}
 		viaHelper := f.Common().StaticCallee() != fix // the pass lives in a helper: its call must dominate
 		eachInstr(proc, func(in ssa.Instruction) {
 			if r, isr := in.(*ssa.Return); isr && len(retry) > 0 && reaches(retry[0], r) {
